@@ -1025,3 +1025,29 @@ Proof.
   intros. unfold asmatrix. rewrite canon_dense. unfold triples.
   rewrite (nonzero_spec_l bs bidx false H). rewrite keep_false. reflexivity.
 Qed.
+
+(* ------------------------------------------------------------------------ *)
+(* histories on one object: the state after any history is determined by the *)
+(* last accepted assignment; queries never change it                         *)
+(* ------------------------------------------------------------------------ *)
+Lemma hist_queries_l : forall bs bidx data ops,
+  Forall (fun op => op = OpQuery) ops -> hist_run bs bidx data ops = data.
+Proof.
+  intros bs bidx data ops H. unfold hist_run. revert data.
+  induction H as [|op ops Hop HF IH]; intros data; simpl; auto. subst op. simpl. apply IH.
+Qed.
+
+Lemma hist_run_app : forall bs bidx data a b,
+  hist_run bs bidx data (a ++ b) = hist_run bs bidx (hist_run bs bidx data a) b.
+Proof. intros. unfold hist_run. apply fold_left_app. Qed.
+
+(* whatever happened before (queries that may have warmed a cache, earlier assignments),
+   after an accepted `M.data = d` followed only by queries the object denotes d *)
+Lemma hist_last_set_l : forall bs bidx data before d after,
+  set_ok bidx d = true -> Forall (fun op => op = OpQuery) after ->
+  hist_run bs bidx data (before ++ OpSet d :: after) = d.
+Proof.
+  intros. rewrite hist_run_app. change (OpSet d :: after) with ([OpSet d] ++ after).
+  rewrite hist_run_app. rewrite hist_queries_l by auto.
+  unfold hist_run. simpl. rewrite H. reflexivity.
+Qed.
